@@ -1,4 +1,5 @@
 import T4V.Proofs.PostClosed
+import T4V.Proofs.CompileClosed
 import T4V.Proofs.Optimise
 /-!
 # Property C08 — structural validity of the written file (the clauses that are logic of the model)
@@ -41,5 +42,18 @@ theorem closed_after_post (dedup : Bool) (surfs : List (Nat × String)) (u : Nat
   exact postProcess_closed dedup surfs u vols hc' hnd p hp k (by simp [idsOf, ho, hk])
 
 example : ((8 : Nat), (9 : Nat)).1 ≠ ((8 : Nat), (9 : Nat)).2 := by decide
+
+/-- **no dangling reference in what is written, end to end**: the dictionary produced by the conversion loop (any
+deck, any number of cells) and then post-processed has every UNION/INTE operand among its own keys — no hypothesis
+on the dictionary is left -/
+theorem closed_end_to_end (env : CEnv) (fuel next0 : Nat) (keys : List Nat) (st' : CState)
+    (h : convertAll env fuel keys { next := next0 } = .ok st')
+    (dedup : Bool) (surfs : List (Nat × String)) (u : Nat × Nat) :
+    ∀ p ∈ (postProcess dedup surfs u st'.vols).2, ∀ op ids, p.2.ops = some (op, ids) →
+      ∀ k ∈ ids, hasKey (postProcess dedup surfs u st'.vols).2 k := by
+  obtain ⟨hcl, hkn⟩ := convertAll_closed_init env fuel next0 keys st' h
+  have := postProcess_closed dedup surfs u st'.vols hcl hkn
+  intro p hp op ids ho k hk
+  exact this p hp k (by simp [idsOf, ho, hk])
 
 end T4V.C08
